@@ -416,6 +416,54 @@ func (vc *VC) callByContract(fr *Frame, n *Node, callee *ssa.Function, fc *FuncC
 		} else {
 			vc.havocMaps(n, ms.sorted())
 		}
+		for _, c := range fc.Clauses {
+			if c.Kind == "havocs" {
+				for _, loc := range splitTopLevel(c.Text) {
+					if err := vc.havocLoc(sc, n, loc); err != nil {
+						vc.specError(c, err)
+					}
+				}
+			}
+		}
+	}
+	// declared lock effects: the state of the named locks is whatever the postcondition says
+	for _, c := range fc.Clauses {
+		if c.Kind != "acquires" && c.Kind != "releases" {
+			continue
+		}
+		psc := *sc
+		psc.env = pre
+		for _, loc := range splitTopLevel(c.Text) {
+			e, err := ParseExpr(strings.Fields(loc)[0])
+			if err != nil {
+				vc.specError(c, err)
+				continue
+			}
+			v, err := psc.eval(e)
+			if err != nil {
+				vc.specError(c, err)
+				continue
+			}
+			var addr string
+			if v.Ty != nil {
+				if pt, ok := v.Ty.Underlying().(*types.Pointer); ok && isLockType(pt.Elem()) {
+					addr = psc.term(v)
+				}
+			}
+			if addr == "" && v.LV != nil {
+				addr = vc.lockAddr(v.LV)
+			}
+			if addr == "" {
+				vc.specError(c, fmt.Errorf("bad lock location %q", loc))
+				continue
+			}
+			vc.lockVar()
+			old := vc.cur(n.env, "LockSt")
+			nv := vc.bump(n.env, "LockSt")
+			st := vc.fresh("lockst", "Int")
+			n.assume(sAnd(app("<=", "0", st), app("<=", st, "2")))
+			n.assume(sEq(nv, app("store", old, addr, st)))
+		}
 	}
 	// results
 	results := vc.havocResults(fr, n, callee.Signature, callee.Name())
@@ -551,7 +599,16 @@ func (vc *VC) callInvoke(fr *Frame, n *Node, call *ssa.CallCommon, res ssa.Value
 		}
 	}
 	if fc, ok := vc.p.ifaceContracts[key]; ok {
+		akey := key
+		if nt, ok := types.Unalias(call.Value.Type()).(*types.Named); ok {
+			akey = nt.Obj().Name() + "." + call.Method.Name()
+		}
+		fr.callOrd["@"+akey]++
+		ord := fr.callOrd["@"+akey]
+		fr.ghostArgs = map[string]Val{"self": {T: recv, Ty: call.Value.Type()}}
+		vc.ghostAt(fr, n, "before", akey, ord)
 		vc.callIfaceContract(fr, n, fc, call, res, recv, args, pos, key)
+		vc.ghostAt(fr, n, "after", akey, ord, res)
 		return n
 	}
 	if vc.libInvoke(fr, n, key, call, res, recv, args, pos) {
@@ -657,6 +714,15 @@ func (vc *VC) callIfaceContract(fr *Frame, n *Node, fc *FuncContract, call *ssa.
 		}
 		sort.Strings(nms)
 		vc.havocMaps(n, nms)
+		for _, c := range fc.Clauses {
+			if c.Kind == "havocs" {
+				for _, loc := range splitTopLevel(c.Text) {
+					if err := vc.havocLoc(sc, n, loc); err != nil {
+						vc.specError(c, err)
+					}
+				}
+			}
+		}
 	} else {
 		vc.allocMono(n, pre)
 	}
